@@ -73,13 +73,13 @@ def corruptions(raw, hdr_len, pairs):
 
 
 def malformed_case(name, raw, chunk, np=1):
-    c = Case(name, np)
+    c = Case(name, np, opts=dict(tlimit=6))
     if chunk: c.op('*', 'env', PNETCDF_VERIF_HDR_CHUNK=str(chunk))
     c.op(0, 'mkfile', path='m.nc', hex=raw.hex() if raw else None)
     c.op('*', 'barrier')
     lo = c.op('*', 'open', f=0, path='m.nc', write=0)
     ls = c.op('*', 'sweep', f=0, nomfp=1)
-    gets = [c.op('*', 'get', f=0, form='var', v=v, coll=1, api='flex', lay='dtnull', mem='schar', maxn=100000) for v in range(4)]
+    gets = []      # the property is about opening: data reads from a corrupted-but-accepted file are not judged
     lc = c.op('*', 'close', f=0)
     return c, (lo, ls, gets, lc)
 
@@ -109,9 +109,20 @@ def main(tier=None):
                 name = 'MAL-%s-%s-c%s' % (label, clabel, chunk)
                 c, ctx = malformed_case(name, bad, chunk)
                 mal.append((c, ctx, len(bad)))
-    res2 = runner.run_cases(b['vx'], [x[0] for x in mal], batch=150, timeout=900)
+    # memory safety under the sanitizers (absurd allocations are refused by the sanitizer runtime so that they fail fast) ...
+    res_s = runner.run_cases(b['vx'], [x[0] for x in mal], batch=100, timeout=300, confirm_timeout=40,
+                             env_extra={'ASAN_OPTIONS': runner.MPI_ENV['ASAN_OPTIONS'] + ':max_allocation_size_mb=512'})
+    for (c, ctx, n), r in zip(mal, res_s):
+        if r.status in ('asan', 'crash'):
+            kind, frame = san_frame(r.detail)
+            ck.violation(('sanitizer' if r.status == 'asan' else r.status, 'open of malformed file: ' + kind, frame), c.text(), '%s: %s' % (c.name, r.detail[:1500]))
+    # ... time, memory and self-consistency on the uninstrumented build
+    bp = build.build('plain')
+    res2 = runner.run_cases(bp['vx'], [x[0] for x in mal], batch=100, timeout=300, confirm_timeout=40)
     accepted = 0
     for (c, (lo, ls, gets, lc), n), r in zip(mal, res2):
+        if r.status == 'timeout':
+            ck.violation(('slow', 'open of malformed file', 'time limit'), c.text(), '%s: a %d-byte input keeps the library busy for more than 6 s (size taken from an untrusted count)' % (c.name, n)); continue
         if r.status != 'ok':
             kind, frame = san_frame(r.detail)
             ck.violation(('sanitizer' if r.status == 'asan' else r.status, 'open of malformed file: ' + kind, frame), c.text(), '%s: %s' % (c.name, r.detail[:1500])); continue
@@ -126,11 +137,10 @@ def main(tier=None):
             sw = r.r(0, ls).json()
             if sw.get('rc') != 0:
                 ck.violation(('inconsistent_metadata', 'inq after successful open', 'inq fails'), c.text(), '%s: open succeeded but ncmpi_inq returns %s' % (c.name, sw.get('rc'))); continue
-            bad = [x for x in sw.get('dims', []) if x.get('rc') != 0] + [x for x in sw.get('vars', []) if x.get('rc') != 0] + [x for x in sw.get('gatts', []) if x.get('rc') not in (0, None) or x.get('rc2') not in (0, None)]
+            # by-id inquiries must all succeed; lookups BY NAME are not required to (a corrupted name may be empty or illegal and then cannot be named through the API)
+            bad = [x for x in sw.get('dims', []) if x.get('rc') != 0] + [x for x in sw.get('vars', []) if x.get('rc') != 0] + [x for x in sw.get('gatts', []) if x.get('rc') not in (0, None)]
             if bad or len(sw.get('dims', [])) != sw.get('nd') or len(sw.get('vars', [])) != sw.get('nv'):
                 ck.violation(('inconsistent_metadata', 'inq after successful open', 'object inquiry fails'), c.text(), '%s: open succeeded but the metadata is not self-consistent: %s' % (c.name, bad[:2])); continue
-            for i, v in enumerate(sw.get('vars', [])):
-                if v.get('id') != i: ck.violation(('inconsistent_metadata', 'inq after successful open', 'name lookup'), c.text(), '%s: variable %d is not found under its own name' % (c.name, i)); break
     ck.cov['evaluations'] = nprog + len(mal)
     ck.cov['programs_under_sanitizers'] = nprog; ck.cov['malformed_inputs'] = len(mal); ck.cov['malformed_accepted_and_consistent'] = accepted
     ck.cov['distinct_nontrivial'] = len(set(x[0].ops[-6] if len(x[0].ops) > 6 else x[0].name for x in mal))
